@@ -30,7 +30,9 @@ from pathlib import Path
 from typing import Any, Callable, Iterable
 
 VERIF = Path(__file__).resolve().parent.parent
-LEAN = VERIF / "lean"
+# runs against seeded / scratch trees work on their own copy of the Lean project (VERIF_LEAN_DIR): the generated files and the
+# compiled driver of the real tree are never touched by them
+LEAN = Path(os.environ.get("VERIF_LEAN_DIR") or VERIF / "lean")
 GEN = LEAN / "PynencModel" / "Gen"
 REPO = Path(os.environ.get("PYNENC_REPO", "/repo"))
 # checks run against a seeded/scratch tree (tools/seed_eval.py, tools/mutant_run.sh) write their evidence and replays elsewhere
